@@ -105,6 +105,66 @@ func RegistryFields() []ref.Field {
 	return regFields
 }
 
+// NewCollectorPoolArgs is NewPoolArgs plus the user-registered string element declared with a
+// fixed length (a collector slices it by that length; the exporter side is left out because the
+// library encodes every string with a length prefix whatever its declared length).
+func NewCollectorPoolArgs() ([]ref.Field, [][2]uint32) {
+	known, taken := NewPoolArgs()
+	return append(known, FixedString), taken
+}
+
+// SetKlogVerbosity sets klog's -v level (output stays discarded).
+func SetKlogVerbosity(v int) {
+	fs := flag.NewFlagSet("klogv", flag.ContinueOnError)
+	klog.InitFlags(fs)
+	fs.Set("logtostderr", "false")
+	fs.Set("alsologtostderr", "false")
+	fs.Set("stderrthreshold", "FATAL")
+	fs.Set("v", fmt.Sprint(v))
+	klog.SetOutput(io.Discard)
+}
+
+// SetValue writes v into an existing element object through its setter, or resets it when the value
+// is empty (applications that reuse element objects across records do exactly this).
+func SetValue(el entities.InfoElementWithValue, t ref.Type, v ref.Value) {
+	if (t.IsBytes() && len(v.B) == 0) || (!t.IsBytes() && v.U == 0) {
+		el.ResetValue()
+		return
+	}
+	switch t {
+	case ref.TOctets:
+		el.SetOctetArrayValue(v.B)
+	case ref.TU8:
+		el.SetUnsigned8Value(uint8(v.U))
+	case ref.TU16:
+		el.SetUnsigned16Value(uint16(v.U))
+	case ref.TU32, ref.TDTSec:
+		el.SetUnsigned32Value(uint32(v.U))
+	case ref.TU64, ref.TDTMilli:
+		el.SetUnsigned64Value(v.U)
+	case ref.TI8:
+		el.SetSigned8Value(int8(v.U))
+	case ref.TI16:
+		el.SetSigned16Value(int16(v.U))
+	case ref.TI32:
+		el.SetSigned32Value(int32(v.U))
+	case ref.TI64:
+		el.SetSigned64Value(int64(v.U))
+	case ref.TF32:
+		el.SetFloat32Value(f32frombits(uint32(v.U)))
+	case ref.TF64:
+		el.SetFloat64Value(f64frombits(v.U))
+	case ref.TBool:
+		el.SetBooleanValue(v.U == 1)
+	case ref.TMac:
+		el.SetMacAddressValue(net.HardwareAddr(v.B))
+	case ref.TString:
+		el.SetStringValue(string(v.B))
+	case ref.TIPv4, ref.TIPv6:
+		el.SetIPAddressValue(net.IP(v.B))
+	}
+}
+
 // IE returns the library element for a field: the registry's own object when it exists
 // there, otherwise a fresh one built from the field.
 func IE(f ref.Field) *entities.InfoElement {
